@@ -211,9 +211,9 @@ class Collector:
         self.cases.append((cid, expr))
         self.info[cid] = (desc, oracle)
 
-    def run(self, name, shard=40):
+    def run(self, name, shard=40, header=None):
         ctx = self.ctx
-        failed, errors = ctx.coq_cases(name, HEADER, self.cases, shard=shard)
+        failed, errors = ctx.coq_cases(name, header or HEADER, self.cases, shard=shard)
         for path, err in errors:
             ctx.broken_obligation(f"correspondence:{name}:" + path.split("/")[-1], err)
         for c in failed:
@@ -1825,6 +1825,480 @@ def float_ops_stream(ctx):
 
 
 # ----------------------------------------------------------------------------
+# record histories: sub-operator applications and expectation queries that SHARE one caller-supplied
+# `info` dict (the documented way to keep track of the canonical centre).  Exact part: after every
+# call the implementation's info["cur_orthog"] equals the record of coq/C09/RecordModel.v and every
+# isometry the model guarantees is measured on the state (C09_record_truthful_every_history is the
+# theorem about that model).  Numerical part (a test, not a theorem; tolerance): after every call
+# the state equals the dense reference, expectation values equal <v|G|v>/<v|v>, the record is true
+# of the state it describes, a truncating application respects its cap and (method 'direct') its
+# error is at most the root-sum-square of the discarded singular values of the exact result over
+# the cuts of the region (equal to the optimum when one bond is truncated).
+
+RHEADER = ("From Coq Require Import ZArith Arith List Bool.\nImport ListNotations.\n"
+           "From QV Require Import C09.Model C09.RecordModel.\n")
+MISSING = "<missing>"
+
+
+def rcd_of(info):
+    r = info.get("cur_orthog", MISSING)
+    if r is None or r == MISSING or r == "calc":
+        return r
+    if isinstance(r, tuple) and len(r) == 2:
+        return (int(r[0]), int(r[1]))
+    return ("?", repr(r))
+
+
+def rcd_lit(r):
+    if r == MISSING:
+        return "RUnset"
+    if r is None:
+        return "RNone"
+    if r == "calc":
+        return "RCalc"
+    return f"(RPair {natlit(r[0])} {natlit(r[1])})"
+
+
+def npair(c):
+    return f"({natlit(c[0])}, {natlit(c[1])})"
+
+
+def boollist(xs):
+    return "[" + "; ".join(blit(x) for x in xs) + "]"
+
+
+def iso_flags(psi, tol=1e-8):
+    """per site: is it (measured) a left isometry w.r.t. its right bond / a right isometry w.r.t. its left bond"""
+    L = psi.L
+    li, ri = [False] * L, [False] * L
+    for i in range(L):
+        t = psi[psi.site_tag(i)]
+        if i < L - 1:
+            rb = psi.bond(i, i + 1)
+            M = np.asarray(t.to_dense([ix for ix in t.inds if ix != rb], [rb]))
+            li[i] = bool(np.abs(M.conj().T @ M - np.eye(M.shape[1])).max() < tol)
+        if i > 0:
+            lb = psi.bond(i - 1, i)
+            M = np.asarray(t.to_dense([lb], [ix for ix in t.inds if ix != lb]))
+            ri[i] = bool(np.abs(M @ M.conj().T - np.eye(M.shape[0])).max() < tol)
+    return li, ri
+
+
+def record_defect(L, rec, li, ri):
+    """None if the record (a pair) is true of the measured state, else the first false claim"""
+    lo, hi = min(rec), max(rec)
+    if not (0 <= lo and hi < L):
+        return f"recorded range {rec} is outside the chain"
+    for i in range(L):
+        if i < lo and not li[i]:
+            return f"site {i} is not a left isometry although cur_orthog={rec}"
+        if i > hi and not ri[i]:
+            return f"site {i} is not a right isometry although cur_orthog={rec}"
+    return None
+
+
+def dense_gate(vec, G, where, L, d=2):
+    """G (acting on the sites `where`, in that order) applied to the dense vector"""
+    k = len(where)
+    x = np.asarray(vec).reshape([d] * L)
+    Gt = np.asarray(G).reshape([d] * (2 * k))
+    x = np.tensordot(Gt, x, axes=(list(range(k, 2 * k)), list(where)))
+    x = np.moveaxis(x, list(range(k)), list(where))
+    return x.reshape(-1)
+
+
+def rh_matrix(nrng, n, cplx, herm):
+    M = nrng.normal(size=(n, n))
+    if cplx:
+        M = M + 1j * nrng.normal(size=(n, n))
+    if herm:
+        M = (M + M.conj().T) / 2
+    return M
+
+
+def rh_where(r, L, allow_far=True):
+    """a `where` of an expectation term: bare int, 1-tuple, adjacent pair, distant pair, reversed pair"""
+    kind = r.choice(["int", "one", "adj", "adj", "far", "rev"] if allow_far else ["int", "one", "adj"])
+    i = r.randrange(L)
+    if kind == "int":
+        return i
+    if kind == "one":
+        return (i,)
+    i = r.randrange(L - 1)
+    if kind == "adj":
+        return (i, i + 1)
+    j = min(L - 1, i + r.randint(1, 3))
+    return (i, j) if kind == "far" else (j, i)
+
+
+def rh_terms(r, L, zone=None):
+    """1-3 terms; zone = (lo, hi) restricts the sites (directed plans put queries at the two ends)"""
+    ws = []
+    for _ in range(r.randint(1, 3)):
+        for _try in range(20):
+            w = rh_where(r, L)
+            ss = (w,) if isinstance(w, int) else w
+            if zone is None or all(zone[0] <= x <= zone[1] for x in ss):
+                break
+        else:
+            w = (zone[0],)
+        if w not in ws:
+            ws.append(w)
+    return ws
+
+
+def rh_sub(r, L, quick, region=None, trunc=None, rev=None):
+    if region is None:
+        si = r.randrange(L - 1)
+        sf = min(L - 1, si + r.randint(1, 4))
+        if (si, sf) == (0, L - 1):
+            sf -= 1
+    else:
+        si, sf = region
+    route = r.choice(["gate_with_submpo", "gate_with_submpo", "gate_nonlocal", "gate_nonlocal", "gate:nonlocal"])
+    if route == "gate_with_submpo":
+        inner = [x for x in range(si + 1, sf) if r.random() < 0.4][:1]
+        sites = [si] + inner + [sf]
+    else:
+        sites = [si, sf] if r.random() < 0.8 else [sf, si]
+    if trunc is None:
+        trunc = r.random() < 0.35
+    if trunc:
+        method = "direct" if r.random() < 0.8 else r.choice(["dm", "zipup"])
+        D = r.choice([1, 2, 2, 3])
+    else:
+        method = r.choice(["direct", "direct", "dm", "zipup"] if quick else ["direct", "direct", "dm", "zipup", "src", "fit"])
+        D = None
+    return {"kind": "sub", "route": route, "sites": sites, "rev": (r.random() < 0.5) if rev is None else rev, "method": method,
+            "inplace": r.random() < 0.4, "max_bond": D, "transpose": route == "gate_with_submpo" and r.random() < 0.25}
+
+
+def rh_exp(r, L, mode=None, zone=None):
+    mode = mode or r.choice(["copy", "copy", "envs", "inplace", "local", "ptr"])
+    terms = rh_terms(r, L, zone)
+    if mode in ("local", "ptr"):
+        terms = terms[:1]
+    return {"kind": "exp", "mode": mode, "terms": terms, "normalized": r.random() < 0.7, "return_all": r.random() < 0.5}
+
+
+def rh_canon(r, L):
+    w = rh_where(r, L)
+    return {"kind": "canon", "where": w, "inplace": r.random() < 0.5}
+
+
+def rh_plan(r, L, quick, family):
+    """family 'random': any 2-5 calls; 'two_applications': an untruncated sub-operator application (either sweep
+    direction) followed - possibly after a query - by a truncating 'direct' application on a region placed left of /
+    inside / overlapping / right of the first one; 'queries': 2-4 expectation queries at the two ends of the chain in
+    any mode, then a call that consumes the record"""
+    if family == "random":
+        plan = []
+        for _ in range(r.randint(2, 5)):
+            k = r.choice("ssxxc")
+            plan.append(rh_sub(r, L, quick) if k == "s" else rh_exp(r, L) if k == "x" else rh_canon(r, L))
+        return plan
+    if family == "two_applications":
+        a = r.randrange(0, L - 2)
+        b = min(L - 1, a + r.randint(1, 4))
+        if (a, b) == (0, L - 1):
+            b -= 1
+        rel = r.choice(["inside_left", "inside_left", "inside", "inside", "left_overlap", "left_overlap", "right_overlap", "left", "right", "same"])
+        if rel == "inside_left":
+            c, d = a, max(a + 1, b - 1)
+        elif rel == "inside":
+            c = r.randint(a, b - 1)
+            d = r.randint(c + 1, b)
+        elif rel == "left_overlap":
+            c = max(0, a - r.randint(1, 2))
+            d = r.randint(max(c + 1, a), max(c + 1, b - 1))
+        elif rel == "right_overlap":
+            c = r.randint(a, b)
+            d = min(L - 1, b + r.randint(1, 2))
+            c = min(c, d - 1)
+        elif rel == "left":
+            d = max(1, a - 1) if a > 1 else 1
+            c = max(0, d - r.randint(1, 2))
+        elif rel == "right":
+            c = min(L - 2, b + 1)
+            d = min(L - 1, c + r.randint(1, 2))
+        else:
+            c, d = a, b
+        plan = [rh_sub(r, L, quick, region=(a, b), trunc=False, rev=r.random() < 0.6)]
+        if r.random() < 0.3:
+            plan.append(rh_exp(r, L))
+        second = rh_sub(r, L, quick, region=(c, d), trunc=True)
+        second["method"] = "direct"
+        plan.append(second)
+        if r.random() < 0.5:
+            plan.append(rh_exp(r, L))
+        return plan
+    # queries
+    ends = [(L - 3, L - 1), (0, 2)]
+    if r.random() < 0.5:
+        ends.reverse()
+    zones = ends + [None, ends[0]]
+    plan = [rh_exp(r, L, mode=r.choice(["copy", "copy", "copy", "inplace", "envs", "local"]), zone=z) for z in zones[: r.randint(2, 4)]]
+    last = r.choice(["sub", "exp", "canon"])
+    plan.append(rh_sub(r, L, quick, trunc=r.random() < 0.6) if last == "sub" else rh_exp(r, L, mode="inplace") if last == "exp" else rh_canon(r, L))
+    if last == "sub" and plan[-1]["max_bond"] is not None:
+        plan[-1]["method"] = "direct"
+    return plan
+
+
+def region_tails(vec, L, si, sf, D):
+    """squared discarded weight of the exact vector at every cut of the region si..sf"""
+    v = np.asarray(vec).reshape(-1)
+    out = []
+    for c in range(si + 1, sf + 1):
+        s_ = np.linalg.svd(v.reshape(2 ** c, -1), compute_uv=False)
+        out.append(float(np.sum(s_[D:] ** 2)))
+    return out
+
+
+def run_record_history(ctx, col, hid, hseed, family):
+    import random
+    import warnings
+
+    import quimb.tensor as qtn
+
+    r = random.Random(hseed)
+    nrng = np.random.default_rng(hseed)
+    L = r.choice([5, 6, 7, 8])
+    chi = r.choice([3, 4, 5])
+    cplx = r.random() < 0.5
+    psi = rand_float_mps(nrng, L, chi, [2] * L, cplx) * r.choice([0.6, 1.0, 2.5])
+    for i in range(L - 1):  # non-flat spectra: the gauge matters for a truncation
+        bix = psi.bond(i, i + 1)
+        d = psi.ind_size(bix)
+        psi[i].multiply_index_diagonal_(bix, np.exp(-r.uniform(0.0, 3.0) * np.arange(d) / d))
+    outs = [psi.site_ind(i) for i in range(L)]
+    init = r.choice(["missing", "missing", "calc", "none", "pair", "wide_pair"])
+    info = {}
+    if init == "calc":
+        info = {"cur_orthog": "calc"}
+    elif init == "none":
+        info = {"cur_orthog": None}
+    elif init in ("pair", "wide_pair"):
+        c1 = r.randrange(L)
+        c2 = r.randint(c1, min(L - 1, c1 + 2))
+        psi.canonicalize_((c1, c2), info={"cur_orthog": None})
+        if init == "wide_pair":
+            c1, c2 = r.randint(0, c1), r.randint(c2, L - 1)
+        info = {"cur_orthog": (c1, c2)}
+    plan = rh_plan(r, L, ctx.quick, family)
+    base = {"op": "record_history", "family": family, "history_seed": hseed, "L": L, "bond": chi, "complex": cplx,
+            "initial_info": str(info), "plan": plan,
+            "repro": "psi = random non-canonical MPS (harness.c09.run_record_history(ctx, col, 0, history_seed, family) rebuilds it); "
+                     "the calls of `plan` are made in order with ONE shared info dict"}
+    cur = psi
+    ref = np_res(cur, outs)
+    li, ri = iso_flags(cur)
+    r0 = rcd_of(info)
+    if isinstance(r0, tuple) and record_defect(L, r0, li, ri):
+        raise RuntimeError("harness: the initial record is not true of the initial state")
+    s0 = f"(init_state {natlit(L)} {rcd_lit(r0)})"
+    before_ops = []
+    records = [str(r0)]
+    ctx.bump(f"record_history:{family}")
+    ctx.bump(f"record_init:{init}")
+    nviol = 0
+    stale = None  # (key of the call after which the record stopped being true, its position)
+
+    def bad(key, what, k, extra=None):
+        """a failing call; once the record has gone stale, later failures are its consequences and are keyed as such"""
+        nonlocal nviol
+        nviol += 1
+        if stale is not None:
+            short = key.rsplit(":", 1)[-1]
+            if short == "value" and plan[k]["kind"] == "exp":
+                short = "expectation_value"
+            key = f"{stale[0]}:then:{short}"
+            what += f" [consequence of the record that call #{stale[1]} left false]"
+        rep = {**base, "step": k, "call": plan[k], "records": list(records), **(extra or {})}
+        ctx.violation(key, what, rep)
+        return (key, what, rep)
+
+    for k, spec in enumerate(plan):
+        if nviol >= 4:
+            break
+        calc = tuple(int(x) for x in cur.calc_current_orthog_center())
+        verdicts = []
+        kind = spec["kind"]
+        ctx.count((hid, k, str(spec)), True)
+        ctx.bump(f"record_op:{kind}:{spec.get('mode') or spec.get('route') or ''}")
+        before = describe(cur)
+        described = cur  # the state the record describes after the call
+        try:
+            with warnings.catch_warnings():
+                warnings.simplefilter("ignore")
+                if kind == "canon":
+                    w = spec["where"]
+                    ww = (w, w) if isinstance(w, int) else (w[0], w[-1])
+                    coq_op = f"(OCanon {natlit(ww[0])} {natlit(ww[1])} {npair(calc)})"
+                    key0 = "canonicalize:shared_info"
+                    if spec["inplace"]:
+                        out = cur.canonicalize_(w, info=info)
+                    else:
+                        out = cur.canonicalize(w, info=info)
+                        if describe(cur) != before:
+                            verdicts.append(bad(key0 + ":mutated_input", "canonicalize(inplace=False) modified the state it was called on", k))
+                    cur = described = out
+                    if not close(np_res(cur, outs), ref, 1e-9):
+                        verdicts.append(bad(key0 + ":value", "canonicalize changed the state vector", k))
+                elif kind == "sub":
+                    sites = spec["sites"]
+                    si, sf = min(sites), max(sites)
+                    D = spec["max_bond"]
+                    m = spec["method"]
+                    rev = spec["rev"]
+                    coq_op = f"(OSub {natlit(sites[0])} {natlit(sites[-1])} {blit(rev)} {npair(calc)})"
+                    key0 = f"{spec['route']}:shared_info:sweep_reverse={rev}"
+                    iterative = any(m.startswith(x) for x in ITERATIVE)
+                    kw = {"method": m, "sweep_reverse": rev, "info": info, "cutoff": 0.0, "inplace": spec["inplace"]}
+                    if D is not None:
+                        kw["max_bond"] = D
+                    elif iterative:
+                        kw["max_bond"] = 64
+                    if m in ("src", "fit"):
+                        kw["seed"] = hseed % 100003
+                    if spec["route"] == "gate_with_submpo":
+                        A = rand_float_mpo(nrng, len(sites), 2, [2] * len(sites), cplx, sites=sites, Ltot=L)
+                        G = np.asarray(tm.np_dense(tm.qtn_tensors(A), [f"k{s_}" for s_ in sites] + [f"b{s_}" for s_ in sites]))
+                        G = G.reshape(2 ** len(sites), 2 ** len(sites))
+                        if spec["transpose"]:
+                            G = G.T
+                        out = cur.gate_with_submpo(A, transpose=spec["transpose"], **kw)
+                    else:
+                        G = rh_matrix(nrng, 2 ** len(sites), cplx, False)
+                        if spec["route"] == "gate_nonlocal":
+                            out = cur.gate_nonlocal(G, tuple(sites), **kw)
+                        else:
+                            out = cur.gate(G, tuple(sites), contract="nonlocal", **kw)
+                    exact = dense_gate(ref, G, sites, L)
+                    if spec["inplace"]:
+                        if out is not cur:
+                            verdicts.append(bad(key0 + ":inplace_identity", "inplace=True returned a new object", k))
+                    elif describe(cur) != before:
+                        verdicts.append(bad(key0 + ":mutated_input", "inplace=False modified the state it was called on", k))
+                    cur = described = out
+                    got = np_res(cur, outs)
+                    nex = float(np.linalg.norm(exact))
+                    if D is None:
+                        tol = 1e-6 if iterative else 1e-9
+                        if not np.linalg.norm(got - exact) <= tol * nex:
+                            verdicts.append(bad(key0 + ":value", f"untruncated sub-operator application ({m}) differs from the dense product "
+                                                f"(rel. error {np.linalg.norm(got - exact) / nex:.2e})", k))
+                        ref = exact
+                    else:
+                        bs = [int(cur.bond_size(j, j + 1)) for j in range(si, sf)]
+                        if max(bs) > D:
+                            verdicts.append(bad(key0 + ":bond_cap", f"bonds {bs} of the region exceed max_bond={D}", k))
+                        tails = region_tails(exact, L, si, sf, D)
+                        err = float(np.linalg.norm(got - exact))
+                        upper, lower = math.sqrt(sum(tails)), math.sqrt(max(tails))
+                        ex = {"error": err, "discarded_weight_bound": upper, "best_possible": lower}
+                        if max(bs) <= D and err < lower * (1 - 1e-7) - 1e-12 * nex:
+                            verdicts.append(bad(key0 + ":below_eckart_young", f"error {err:.3e} below the best possible {lower:.3e}", k, ex))
+                        if m == "direct":
+                            # independent reference: 'direct' truncates the cuts of the region one after the other (far end
+                            # first), each optimally for the current state because it works in canonical form
+                            seq = np.array(exact, dtype=complex)
+                            for c in (range(si + 1, sf + 1) if rev else range(sf, si, -1)):
+                                U_, s_, Vh_ = np.linalg.svd(seq.reshape(2 ** c, -1), full_matrices=False)
+                                seq = ((U_[:, :D] * s_[:D]) @ Vh_[:D]).reshape(-1)
+                            want_err = float(np.linalg.norm(seq - exact))
+                            ex["sequential_optimum"] = want_err
+                            if err > upper * (1 + 1e-6) + 1e-10 * nex or abs(err - want_err) > 1e-6 * want_err + 1e-9 * nex:
+                                verdicts.append(bad(f"{spec['route']}:shared_info:truncation_error",
+                                                    f"truncating 'direct' application on sites {si}..{sf} (max_bond={D}, sweep_reverse={rev}) after "
+                                                    f"a history sharing `info`: error {err:.6e}, but cut-by-cut optimal truncation of the exact "
+                                                    f"result gives {want_err:.6e} and the root-sum-square of the discarded singular values is "
+                                                    f"{upper:.6e} (the truncation was not made in the canonical gauge)", k, ex))
+                            elif not np.linalg.norm(got - seq) <= 1e-6 * nex:
+                                verdicts.append(bad(f"{spec['route']}:shared_info:truncation_value",
+                                                    "truncated result differs from the cut-by-cut optimally truncated exact result", k, ex))
+                        ref = got
+                else:
+                    mode = spec["mode"]
+                    nz = spec["normalized"]
+                    terms = {}
+                    for w in spec["terms"]:
+                        n_ = 1 if isinstance(w, int) else len(w)
+                        terms[w] = rh_matrix(nrng, 2 ** n_, cplx, r.random() < 0.7)
+                    nrm = float(np.vdot(ref, ref).real)
+                    want = {w: np.vdot(ref, dense_gate(ref, G, (w,) if isinstance(w, int) else w, L)) / (nrm if nz else 1.0)
+                            for w, G in terms.items()}
+                    pairs = [((w, w) if isinstance(w, int) else (w[0], w[-1])) for w in terms]
+                    key0 = f"compute_local_expectation:{mode}:shared_info"
+                    if mode in ("copy", "envs"):
+                        coq_op = "OExpCopy"
+                        kw = {"method": "canonical" if mode == "copy" else "envs", "normalized": nz, "return_all": spec["return_all"], "info": info}
+                        if mode == "copy" and r.random() < 0.5:
+                            kw["inplace"] = False
+                        val = cur.compute_local_expectation(terms, **kw)
+                        if describe(cur) != before:
+                            verdicts.append(bad(key0 + ":mutated_state", f"compute_local_expectation({mode}, inplace=False) modified the state", k))
+                    elif mode == "inplace":
+                        coq_op = "(OExpIn [" + "; ".join(npair(p_) for p_ in pairs) + f"] {npair(calc)})"
+                        fn = cur.compute_local_expectation if r.random() < 0.5 else cur.compute_local_expectation_canonical
+                        kw = {"method": "canonical"} if fn == cur.compute_local_expectation else {}
+                        val = fn(terms, normalized=nz, return_all=spec["return_all"], info=info, inplace=True, **kw)
+                    else:
+                        (w, G), = terms.items()
+                        coq_op = f"(OExpIn [{npair(pairs[0])}] {npair(calc)})"
+                        if mode == "local":
+                            val = {w: cur.local_expectation_canonical(G, w, normalized=nz, info=info)}
+                        else:
+                            rho = np.asarray(cur.partial_trace_to_dense_canonical(w, normalized=nz, info=info))
+                            val = {w: np.trace(G @ rho)}
+                    if isinstance(val, dict):
+                        pairs_v = [(val[w], want[w]) for w in terms]
+                    else:
+                        pairs_v = [(val, sum(want.values()))]
+                    scale = max(1.0, max(abs(b_) for _, b_ in pairs_v))
+                    worst = max(abs(complex(a_) - complex(b_)) for a_, b_ in pairs_v)
+                    if not worst <= 1e-8 * scale:
+                        verdicts.append(bad(key0 + ":value", f"local expectation values differ from the dense <v|G|v>{'/<v|v>' if nz else ''} "
+                                            f"by {worst:.3e} (call #{k} of a history sharing `info`)", k,
+                                            {"got": str([complex(a_) for a_, _ in pairs_v]), "dense": str([complex(b_) for _, b_ in pairs_v])}))
+                    if mode not in ("copy", "envs") and not close(np_res(cur, outs), ref, 1e-9):
+                        verdicts.append(bad(key0 + ":state_vector", "moving the canonical centre changed the state vector", k))
+        except Exception as e:
+            bad(f"{kind}:{spec.get('mode') or spec.get('route') or 'canonicalize'}:shared_info:raised",
+                f"call #{k} of the history raised {type(e).__name__}: {str(e)[:160]}", k)
+            return
+        rec = rcd_of(info)
+        records.append(str(rec))
+        li, ri = iso_flags(cur)
+        if isinstance(rec, tuple) and rec[0] == "?":
+            verdicts.append(bad(key0 + ":record_type", f"info['cur_orthog'] = {rec[1]} after the call", k))
+            return
+        if stale is not None:
+            continue  # the model and the implementation parted at the stale call: only consequences are collected
+        if isinstance(rec, tuple):
+            why = record_defect(L, rec, li, ri)
+            if why:
+                who = "the caller's unmodified state" if (kind == "exp" and spec["mode"] in ("copy", "envs")) else "the returned state"
+                verdicts.append(bad(key0 + ":record_false", f"after call #{k} the shared info records cur_orthog={rec}, which is not true of {who}: {why}", k))
+                stale = (key0 + ":record_false", k)
+        d2 = {**base, "step": k, "call": spec, "records": list(records), "measured_left_isometries": li, "measured_right_isometries": ri}
+        expr = (f"step_check {s0} [" + "; ".join(before_ops) + f"] {coq_op} {rcd_lit(rec)} {boollist(li)} {boollist(ri)}")
+        col.add(d2, expr, (lambda v=list(verdicts): v[0] if v else None))
+        before_ops.append(coq_op)
+
+
+def record_history_stage(ctx):
+    col = Collector(ctx)
+    hid = 0
+    for family, nq, nt in (("random", 28, 320), ("two_applications", 16, 200), ("queries", 16, 200)):
+        for _ in range(ctx.n(nq, nt)):
+            hid += 1
+            hseed = ctx.rng.randrange(1, 2 ** 31)
+            ctx.stage(lambda c, hid=hid, hseed=hseed, family=family: run_record_history(c, col, hid, hseed, family))
+    col.run("record", shard=ctx.n(60, 200), header=RHEADER)
+
+
+# ----------------------------------------------------------------------------
 
 
 def only(name):
@@ -1878,8 +2352,9 @@ def run(ctx):
         "always return open-boundary networks; periodic chains are exercised through MPS.compress only",
         "exact comparisons round implementation values to Gaussian integers within 1e-7 relative (tnmodel.to_gauss)",
     ]
-    ctx.check_props(["Base/Sums.vo", "Base/TN.vo", "Base/TNExec.vo", "C09/Model.vo", "C09/Proofs.vo", "C09/Cap.vo", "C09/Trunc.vo", "C09/Props.v"])
+    ctx.check_props(["Base/Sums.vo", "Base/TN.vo", "Base/TNExec.vo", "C09/Model.vo", "C09/Proofs.vo", "C09/Cap.vo", "C09/Trunc.vo", "C09/RecordModel.vo", "C09/Record.vo", "C09/Props.v"])
     timed(ctx, exact_stage)
+    timed(ctx, record_history_stage)
     timed(ctx, compression_stream)
     timed(ctx, options_stream)
     timed(ctx, bond_cap_stream)
